@@ -264,6 +264,69 @@ func c08Lifetime(c *Ctx, kind, ep int) {
 	}
 }
 
+// c08WideType: struct{ F000 .. F(n-1) int; tail... }
+func c08WideType(n int, tail ...reflect.StructField) reflect.Type {
+	fields := make([]reflect.StructField, 0, n+len(tail))
+	for i := 0; i < n; i++ {
+		fields = append(fields, reflect.StructField{Name: fmt.Sprintf("F%03d", i), Type: reflect.TypeOf(0)})
+	}
+	return reflect.StructOf(append(fields, tail...))
+}
+
+type C08SInner struct {
+	I interface{}
+	X int
+	Y string
+}
+
+// c08SlotArray: the pooled slot array after a call that grew it by appending (nested program) and a
+// following program that is wider than what the array's length says: interface and recursive members
+// late in a wide struct, checked against encoding/json with the slot assertions on
+func c08SlotArray(c *Ctx, k int) {
+	ifaceT := reflect.TypeOf((*interface{})(nil)).Elem()
+	w1 := []int{60, 100, 30, 120, 61, 90}[k%6]
+	w2 := []int{150, 200, 130, 250, 180, 140}[k%6]
+	warmT := c08WideType(w1, reflect.StructField{Name: "I", Type: ifaceT})
+	warm := reflect.New(warmT).Elem()
+	warm.FieldByName("I").Set(reflect.New(warmT).Elem())
+	targetT := c08WideType(w2,
+		reflect.StructField{Name: "S", Type: reflect.TypeOf(C08SInner{})},
+		reflect.StructField{Name: "L", Type: reflect.TypeOf([]interface{}(nil))},
+		reflect.StructField{Name: "R", Type: reflect.TypeOf((*C08MutA)(nil))},
+		reflect.StructField{Name: "Z", Type: reflect.TypeOf(0)})
+	target := reflect.New(targetT).Elem()
+	target.FieldByName("S").Set(reflect.ValueOf(C08SInner{I: 1, X: 2, Y: "y"}))
+	target.FieldByName("L").Set(reflect.ValueOf([]interface{}{1, "two", 3.5, nil, C08SInner{I: "in"}}))
+	target.FieldByName("Z").SetInt(9)
+	want, _ := stdjson.Marshal(target.Interface())
+	wantI, _ := stdjson.MarshalIndent(target.Interface(), "", " ")
+	for round := 0; round < 4; round++ {
+		runtime.GC()
+		runtime.GC()
+		for ei, f := range []func(v interface{}) ([]byte, error){
+			func(v interface{}) ([]byte, error) { return json.Marshal(v) },
+			func(v interface{}) ([]byte, error) { return json.MarshalIndent(v, "", " ") },
+			func(v interface{}) ([]byte, error) {
+				b, err := json.MarshalWithOption(v, json.Colorize(c13Scheme))
+				return c13Strip.ReplaceAll(b, nil), err
+			},
+		} {
+			_, _, _ = safeMarshal(func() ([]byte, error) { return f(warm.Interface()) })
+			json.VerifSlotsReset(true)
+			got, err, pan := safeMarshal(func() ([]byte, error) { return f(target.Interface()) })
+			errs, _, _, _, _ := json.VerifSlotsReport()
+			json.VerifSlotsReset(false)
+			w := want
+			if ei == 1 {
+				w = wantI
+			}
+			ok := pan == "" && err == nil && bytes.Equal(got, w) && len(errs) == 0
+			c.Oracle(fmt.Sprintf("slot-array-after-growth/vm%d", ei), fmt.Sprintf("case %d round %d: %d ints + interface holding the same type, then %d ints + struct with interface + []interface{} + recursive pointer", k, round, w1, w2),
+				fmt.Sprintf("%s err=%s panic=%s slots=%s", trunc(got), errT(err), pan, strings.Join(errs, "; ")), trunc(w), ok, "")
+		}
+	}
+}
+
 // c08ListTypes: builders of deep and cyclic values of the recursive slice / map / array types
 var c08ListTypes = []struct {
 	name string
@@ -991,6 +1054,12 @@ func runC08(c *Ctx) {
 	c.RunCases("lifetime", 5*8, func(c *Ctx, k int, rng *rand.Rand) { c08Lifetime(c, k%5, k/5) },
 		func(k int, rng *rand.Rand) string {
 			return fmt.Sprintf("lifetime: value kind %d through entry point %d, referenced only by the call", k%5, k/5)
+		}, nil)
+
+	c.Chunk = 2
+	c.RunCases("slotarray", 6, func(c *Ctx, k int, rng *rand.Rand) { c08SlotArray(c, k) },
+		func(k int, rng *rand.Rand) string {
+			return fmt.Sprintf("slot array history %d: a call that makes the pooled slot array grow, then a wider program", k)
 		}, nil)
 
 	// pointer types that contain only themselves: the compiler follows them without end
